@@ -104,7 +104,8 @@ class C17Noise(Machine):
                    "Nyquist bin", "amplitude functions are vectorised or raise TypeError on arrays"]
     required_counters = ("probe.abs_time_reobserved", "probe.rebuild_compared", "fault.bad_band",
                          "fault.no_rms", "probe.file_basis_compared", "probe.dft_checked",
-                         "probe.unit_rms_checked", "draws.injected", "probe.antenna_windows", "draws.rand", "draws.rayleigh")
+                         "probe.unit_rms_checked", "draws.injected", "probe.antenna_windows", "draws.rand", "draws.rayleigh",
+                         "probe.shared_window")
 
     # ------------------------------------------------------------------
     def draw_config(self, rng):
@@ -147,7 +148,8 @@ class C17Noise(Machine):
             kinds = [("new", 1.0), ("bad_band", 0.1), ("no_rms", 0.1)]
         else:
             kinds = [("new", 0.4), ("read", 2.0), ("with_times", 2.0), ("shift", 1.0), ("copy", 0.7),
-                     ("rebuild", 1.0), ("rebase_evaluated", 0.7), ("independent", 0.5), ("file_basis", 0.5),
+                     ("rebuild", 1.0), ("rebase_evaluated", 0.7), ("shared_window", 0.5),
+                     ("independent", 0.5), ("file_basis", 0.5),
                      ("antenna_windows", 0.5),
                      ("bad_band", 0.2), ("no_rms", 0.2)]
         k = rng.weighted(kinds)
@@ -183,7 +185,10 @@ class C17Noise(Machine):
         if k in ("read", "copy", "rebuild"):
             return {"op": k, "v": v}
         if k == "rebase_evaluated":
-            return {"op": k, "k0": rng.randint(-n, n), "m": rng.pick([n, max(2, n // 2)])}
+            return {"op": k, "k0": rng.randint(-n, n), "m": rng.pick([n, max(2, n // 2)]),
+                    "inplace": rng.chance(0.5)}
+        if k == "shared_window":
+            return {"op": k, "v": v, "k0": rng.randint(-n, n), "shift": rng.pick([1, -2, 7])}
         if k == "antenna_windows":
             return {"op": k, "unique": rng.pick([1, 2, 3]), "k0": rng.randint(-5, 20),
                     "factor": rng.pick([2, 4, 6])}
@@ -384,8 +389,13 @@ class C17Noise(Machine):
             raise Violation("C17:rebuild-freqs", "same grid and band give different frequencies")
         st, _ = self.sut(lambda: (np.array(obj.values), np.array(obj.with_times(times + self.cfg["dt"]).values)),
                          where="evaluate before rebase")
-        obj.amps = self.basis.amps.copy()
-        obj.phases = self.basis.phases.copy()
+        if op.get("inplace"):
+            # the published arrays are edited in place (same array objects)
+            obj.amps[:] = self.basis.amps
+            obj.phases[:] = self.basis.phases
+        else:
+            obj.amps = self.basis.amps.copy()
+            obj.phases = self.basis.phases.copy()
         window = self._grid(op["k0"], op["m"])
         st, w = self.sut(obj.with_times, window, where="with_times after rebase")
         self.count("probe.rebuild_compared")
@@ -393,6 +403,28 @@ class C17Noise(Machine):
         nv = View(w, 0.0)
         n = self._check_view(nv, "re-gridded after installing the basis on an evaluated object")
         return ["rebase_evaluated", n]
+
+    def _op_shared_window(self, op):
+        """Two re-grids onto the very same window array; shifting one result must
+        leave the other (and the caller's array) alone."""
+        v = self._view(op)
+        window = self._grid(op["k0"]) + v.shift
+        keep = window.copy()
+        st, res = self.sut(lambda: (v.obj.with_times(window), v.obj.with_times(window)), where="with_times")
+        a, b = res
+        va = View(a, v.shift)
+        self._check_view(va, "first re-grid")
+        d = op["shift"] * self.cfg["dt"]
+        st, _ = self.sut(b.shift, d, where="shift")
+        if not np.array_equal(window, keep):
+            raise Violation("C17:caller-window-modified", "shifting a re-gridded noise changed the caller's "
+                            "window array")
+        self.count("probe.shared_window")
+        self.nontrivial = True
+        self._check_view(va, "first re-grid after the second one was shifted")
+        vb = View(b, v.shift + d)
+        self._push(va)
+        return ["shared_window", self._check_view(vb, "second re-grid, shifted")]
 
     def _op_antenna_windows(self, op):
         """The antenna's noise is one realisation in absolute time, whatever the
